@@ -40,6 +40,18 @@ EXCEPTIONS = {
 
 def walkers(prog):
     """Yield (body, kind)."""
+    res = list(_walkers(prog))
+    have = {k for _, k in res if not isinstance(k, tuple)}
+    for b, k in res:
+        if isinstance(k, tuple):
+            # free-function form: only when the trait-impl form of that kind does not exist
+            if k[1] not in have:
+                yield b, k[1]
+        else:
+            yield b, k
+
+
+def _walkers(prog):
     _fw_cache.clear()
     for b in prog.bodies():
         c = b["_crate"]
@@ -59,6 +71,12 @@ def walkers(prog):
         elif c.name == "spl_frontend" and b["k"] == "fn" and b["p"].startswith("spl_frontend::parser") and "sig_in" in b and \
                 [c.tstr(t_).replace(" ", "") for t_ in b["sig_in"]] == ["&ast::Expression"] and c.tstr(b["sig_out"]) == "bool":
             yield b, "binops"
+        elif c.name == "spl_frontend" and b["k"] == "fn" and "impl_trait" not in b and "/tests" not in c.file_of(b["sp"]) and \
+                (b["p"].startswith("spl_frontend::table::build") or b["p"].startswith("spl_frontend::table::semantic")) and b["params"] and \
+                b["params"][0].get("k") == "Binding" and ast_adt_of(c, b["params"][0]["bt"]) and \
+                c.tstr(b["params"][0]["bt"]).replace(" ", "").startswith("&mut"):
+            # the table builder / semantic checker written as free functions over `&mut <AST node>` instead of trait impls
+            yield b, ("free", "build" if b["p"].startswith("spl_frontend::table::build") else "analyze")
         else:
             k = feature_walker_kind(prog, b)
             if k:
@@ -341,7 +359,11 @@ def rule_traverse(prog):
                         bs = bound.get(f["name"], [])
                         used = any(local_uses(arm_["body"], x["id"]) or (arm_.get("guard") and local_uses(arm_["guard"], x["id"])) for x in bs)
                         if used:
-                            if arm_.get("guard") is None:
+                            # (a guard that inspects a payload which *is* what the walker collects - a leaf - has decided about it:
+                            #  the arm behind it is the "not this one" case)
+                            ft_ = hir.peel(fc, f["t"])
+                            leaf = ft_["k"] == "adt" and last(ft_["p"]) in targets
+                            if arm_.get("guard") is None or leaf:
                                 used_before = True
                             continue
                         if empty_shape(pats_.get(f["name"])) or used_before:
